@@ -284,8 +284,9 @@ class Gen:
                 ('lazy-and', lambda d: self.andor('and', d, 'A', first='Y')),
                 ('lazy-dropped-in-list', lambda d: e('[{}, {}, {}][1]', 'YAY', d)),
                 ('lazy-dropped-in-dict', lambda d: e('{{a => {}, b => {}}}.get(b)', 'YA', d)),
+                # (by keyword only: `let(a, b) -> ..` binds `$1`, which is what `$` reads)
                 ('lazy-let-unread', lambda d: e('(let(zz => {}) -> {})', 'YA', d)),
-                ('lazy-let-unread-positional', lambda d: e('(let({}, {}) -> {})', 'YYA', d))]
+                ('lazy-let-unread-2', lambda d: e('(let(zz => {}, yy => {}) -> {})', 'YYA', d))]
 
     def p_Y(self):
         """values that may be LAZY (an unconsumed pipeline, or an operator that hands one on): only for positions that
@@ -744,6 +745,9 @@ class LamGen(Gen):
 
     def p_S(self):
         return [p for p in Gen.p_S(self) if p[0] != 'assert-str']
+
+    def p_Y(self):
+        return [p for p in Gen.p_Y(self) if p[0] != 'lazy-assert']
 
     def body(self, ty, var, depth):
         """-> {'text', 'x' (flags deferred), 'vars'}; `var`: how the lambda refers to the (integer) element"""
@@ -2214,7 +2218,7 @@ def run(env, res):
     tier = env['tier']
     rng = common.make_rng(env['seed'], 'C11')
     rp = None
-    n = 13000 if tier == 'quick' else 90000
+    n = 13000 if tier == 'quick' else 80000
     max_depth = 3 if tier == 'quick' else 4
     res.rule = ('typed random expressions of depth <= %d with a numbered probe in every operand position (operators, list/map '
                 'literals, indexer, method and keyword calls, library functions, every short-circuit function, def and assert '
